@@ -638,6 +638,10 @@ pub const DET_CLASSES: &[&str] = &[
     "witness-sample-column-missing",
 ];
 
+/// Deterministic scale family: large dictionaries, single records larger than a BGZF block, many samples.
+pub const SCALE_QUICK: &[&str] = &["scale-large-dictionary-130", "scale-large-dictionary-260", "scale-large-record", "scale-many-samples-3000"];
+pub const SCALE_THOROUGH: &[&str] = &["scale-large-dictionary-32770"];
+
 pub const RANDOM_CLASSES: &[&str] = &["many-mixed", "multi-contig", "multi-sample", "one-with-sample", "sites-only", "header-only", "multi-block"];
 
 pub fn make_set(class: &str, seed: u64) -> VSet {
@@ -768,6 +772,105 @@ pub fn make_set(class: &str, seed: u64) -> VSet {
                 })
                 .collect();
             (header_text("VCFv4.3", &c, &s, true), c, s, recs)
+        }
+        // ---- scale family ----------------------------------------------------------------------
+        // a dictionary with more than 127 / 255 / 32767 entries: N extra FILTERs fx<k> and up to 300 extra INFO
+        // (IK<k>) and FORMAT (FK<k>) keys; records use three neighbouring FILTERs and the extra keys in windows
+        // around dictionary positions 128, 256 and 32768 and at the end (typed Int8 / Int16 / Int32 index vectors)
+        c if c.starts_with("scale-large-dictionary-") => {
+            let n: usize = c.rsplit('-').next().unwrap().parse().expect("entry count");
+            let m = n.min(300);
+            let c = mk_contigs(rng, 2);
+            let s = mk_samples(2);
+            let base = header_text("VCFv4.3", &c, &s, true);
+            let (head, chrom_line) = base.split_at(base.find("#CHROM").unwrap());
+            let mut t = String::from(head);
+            for k in 0..n {
+                t.push_str(&format!("##FILTER=<ID=fx{k},Description=\"extra filter {k}\">\n"));
+            }
+            for k in 0..m {
+                t.push_str(&format!("##INFO=<ID=IK{k},Number=1,Type=Integer,Description=\"extra info key {k}\">\n"));
+                t.push_str(&format!("##FORMAT=<ID=FK{k},Number=1,Type=Integer,Description=\"extra format key {k}\">\n"));
+            }
+            t.push_str(chrom_line);
+            let mut ks: Vec<usize> = Vec::new();
+            for centre in [128usize, 256, 32768] {
+                ks.extend((centre.saturating_sub(45)..centre + 45).filter(|&k| k < n));
+            }
+            ks.extend(n.saturating_sub(6)..n);
+            ks.extend([0usize, 1, 2]);
+            ks.sort();
+            ks.dedup();
+            let recs = ks
+                .iter()
+                .map(|&k| {
+                    let mut r = rand_record(rng, &c, s.len(), true, false);
+                    let mut f: Vec<String> = (k..(k + 3).min(n)).map(|j| format!("fx{j}")).collect();
+                    if rng.chance(1, 3) {
+                        f.insert(0, "q10".into());
+                    }
+                    r.filters = Some(f);
+                    r.info.push((format!("IK{}", k % m), Val::Int(k as i32)));
+                    if k + 7 < n {
+                        r.info.push((format!("IK{}", (k + 7) % m), Val::Int(-(k as i32))));
+                    }
+                    r.format.push(format!("FK{}", k % m));
+                    for (si, row) in r.samples.iter_mut().enumerate() {
+                        row.push(Some(Val::Int((k + si) as i32)));
+                    }
+                    r
+                })
+                .collect();
+            (t, c, s, recs)
+        }
+        // single records larger than one and than two BGZF blocks between small ones: long INFO String, long ALT
+        "scale-large-record" => {
+            let c = mk_contigs(rng, 2);
+            let s = mk_samples(2);
+            let mut recs: Vec<Var> = Vec::new();
+            for big in [0usize, 70_000, 0, 0, 140_000, 0, 0] {
+                let mut r = rand_record(rng, &c, s.len(), true, false);
+                if big > 0 {
+                    r.info.retain(|(k, _)| k != "XS");
+                    r.info.push(("XS".into(), Val::Str(word(rng, big, big))));
+                    if big > 100_000 {
+                        r.alts = vec![bases(rng, 100_000, 100_000), "A".into()];
+                        r.refb = "C".into();
+                        r.info.retain(|(k, _)| !matches!(k.as_str(), "AF" | "AC"));
+                        // per-allele FORMAT vectors follow the two ALTs
+                        r = Var { format: vec!["GT".into()], samples: s.iter().map(|_| vec![Some(Val::Gt(vec![(Some(0), false), (Some(2), false)]))]).collect(), ..r };
+                    }
+                }
+                recs.push(r);
+            }
+            (header_text(version, &c, &s, true), c, s, recs)
+        }
+        // 3000 samples: every record line is large; the middle one carries GT:DP:AD:PL:XT for every sample (> 128 KiB)
+        "scale-many-samples-3000" => {
+            let c = mk_contigs(rng, 1);
+            let s: Vec<String> = (0..3000).map(|i| format!("S{i:04}")).collect();
+            let mut recs: Vec<Var> = Vec::new();
+            for full in [false, true, false] {
+                let mut r = rand_record(rng, &c, 0, true, false);
+                r.alts = vec!["G".into()];
+                r.refb = "T".into();
+                r.info.retain(|(k, _)| !matches!(k.as_str(), "AF" | "AC"));
+                r.format = if full { vec!["GT".into(), "DP".into(), "AD".into(), "PL".into(), "XT".into()] } else { vec!["GT".into()] };
+                r.samples = (0..s.len())
+                    .map(|_| {
+                        let mut row = vec![Some(rand_gt(rng, 1, 2))];
+                        if full {
+                            row.push(if rng.chance(1, 20) { None } else { Some(Val::Int(int(rng).abs())) });
+                            row.push(Some(Val::IntArr(vec![Some(rng.range(0, 300) as i32), Some(rng.range(0, 70000) as i32)])));
+                            row.push(Some(Val::IntArr((0..3).map(|_| Some(rng.range(0, 70000) as i32)).collect())));
+                            row.push(Some(Val::Str(word(rng, 1, 12))));
+                        }
+                        row
+                    })
+                    .collect();
+                recs.push(r);
+            }
+            (header_text(version, &c, &s, true), c, s, recs)
         }
         c => panic!("unknown variant set class {c}"),
     };
